@@ -160,6 +160,12 @@ class TemplateEvaluator:
     def evaluate(self, fi):
         """-> list[Emitted] (variants over statement-level ifs)."""
         variants = []
+        # an emitter that hands the code generator to a package-level helper generates code the template recovery cannot see: analysis error
+        # (exit 2, "the checker must be taught the helper"), never a comparison against half a template
+        for n in ast.walk(fi.node):
+            if isinstance(n, ast.Call) and isinstance(n.func, ast.Name) and n.func.id in self.model.functions and \
+                    any(isinstance(a, ast.Name) and a.id == "code" for a in list(n.args) + [k.value for k in n.keywords]):
+                raise AnalysisError("template of %s cannot be recovered: code generation is delegated to the helper %s(code, ...)" % (fi.qual, n.func.id))
 
         def run(stmts, em, env, k, inloop=False):
             """Execute stmts on (em, env); k = continuation(em, env)."""
